@@ -142,6 +142,7 @@ type world struct {
 	reqKind map[string]string
 	open    map[string]bool // requests without a response yet (this epoch)
 	nreq    int
+	view    M // the last projection read (the driver aims its requests at what exists)
 }
 
 var allBackground = []string{"TimeoutPromises", "SchedulePromises", "TimeoutLocks", "EnqueueTasks", "TimeoutTasks"}
@@ -487,7 +488,7 @@ func (w *world) exec(batch []*sub, fail string) error {
 	if err != nil {
 		return err
 	}
-	ev := w.tr.withPost(M{"e": "commit", "t": w.now, "fail": fail, "err": storeErr, "txs": txs}, post)
+	ev := w.tr.withPost(M{"e": "commit", "t": w.now, "fail": fail, "err": storeErr, "txs": txs}, w.look(post))
 	if ev["same"] == true && fail == "none" && !storeErr && bgReadsOnly(batch, w) {
 		// a batch of background reads that left the projection unchanged carries nothing the
 		// specification uses; it is counted, not logged
@@ -677,6 +678,11 @@ type tracer struct {
 
 // withPost attaches the projection; an unchanged projection is written as "same": true
 // (lossless: the validator substitutes the database it already knows).
+func (w *world) look(post M) M {
+	w.view = post
+	return post
+}
+
 func (t *tracer) withPost(ev M, post M) M {
 	b, err := json.Marshal(post)
 	if err != nil {
